@@ -44,11 +44,11 @@ type Step struct {
 
 // firstMatch is the smallest deliverable prefix of a credential step's text on which its pattern
 // matches (an uncut text is only ever seen whole).
-func firstMatch(s Step) int {
+func firstMatch(s Step, d *Dialogue) int {
 	if s.Uncut {
 		return len(s.Text)
 	}
-	return earliest(specFor(s.Kind), s.Text)
+	return earliest(d.spec(s.Kind), s.Text)
 }
 
 // Outcome classes.
@@ -155,11 +155,21 @@ func specFor(kind string) *regexp.Regexp {
 
 // Patterns are the compiled patterns of one session type, taken from a really constructed driver.
 type Patterns struct {
+	// Spec: the pattern a credential prompt of this session is spelled for (the statement's default
+	// pattern, or the custom pattern the session is configured with)
+	Spec       map[string]*regexp.Regexp
 	Auth       string
 	Prompt     *regexp.Regexp
 	User       *regexp.Regexp // telnet only
 	Password   *regexp.Regexp
 	Passphrase *regexp.Regexp // ssh only
+}
+
+func (p *Patterns) spec(kind string) *regexp.Regexp {
+	if r, ok := p.Spec[kind]; ok && r != nil {
+		return r
+	}
+	return specFor(kind)
 }
 
 // matches reports which of the session's patterns accept the single line s ("" = none). Lines can
@@ -236,8 +246,16 @@ func (p *Patterns) promptTextOK(kind, text string) bool {
 	if kind == KShell {
 		want = "prompt"
 	}
-	if earliest(specFor(kind), text) < 0 {
+	if earliest(p.spec(kind), text) < 0 {
 		return false
+	}
+	if p.spec(kind) != specFor(kind) {
+		// a custom spelling must be one that ONLY the custom pattern accepts
+		for n := 1; n <= len(text); n++ {
+			if specFor(kind).MatchString(text[:n]) {
+				return false
+			}
+		}
 	}
 	for n := 1; n <= len(text); n++ {
 		for _, m := range p.matches(text[:n]) {
@@ -255,7 +273,7 @@ func (p *Patterns) promptTextOK(kind, text string) bool {
 // tailOK: what may be left of an answered prompt (any suffix after its first match point), followed
 // by the echo of the answer, forms a line of its own; it must not look like anything at any cut.
 func (p *Patterns) tailOK(kind, text, echo string) bool {
-	e := earliest(specFor(kind), text)
+	e := earliest(p.spec(kind), text)
 	if e < 0 {
 		return false
 	}
